@@ -3,6 +3,7 @@ package c04
 
 import (
 	"fmt"
+	"net/http"
 	"strings"
 	"testing"
 
@@ -431,6 +432,25 @@ func TestGenerated(t *testing.T) {
 			if rapid.IntRange(0, 3).Draw(t, "withRawPath") == 0 {
 				rawMask = rapid.Uint64().Draw(t, "rawMask")
 				ev.Label("req:with_RawPath_spelling")
+			}
+			if rapid.IntRange(0, 7).Draw(t, "aborts") == 0 {
+				// the handler of this request aborts it (panic(http.ErrAbortHandler) escapes ServeHTTP, the caller
+				// recovers as net/http does): the request itself is still dispatched and bound as the model says, and
+				// whatever the Mux keeps between requests must not carry its bindings into the next one
+				m, p := rapid.SampledFrom(reqMethods).Draw(t, "abortedMethod"), genRequestPath(routes).Draw(t, "abortedPath") // another request than the one that follows
+				tb.AbortNext = true
+				got, pan := tb.ServeRaw(m, p, 0)
+				if pan != http.ErrAbortHandler {
+					t.Fatalf("table %s request %q %q with an aborting handler: recovered %v from ServeHTTP, want http.ErrAbortHandler", rh.RenderTable(routes), m, p, pan)
+				}
+				if strings.HasPrefix(p, "/") {
+					want, _ := rh.Expect(tb.Routes, tb.Names, m, p)
+					if d := rh.Diff(got, want); d != "" {
+						t.Fatalf("table %s request %q %q (handler aborts afterwards): %s", rh.RenderTable(routes), m, p, d)
+					}
+				}
+				tb.AbortNext = false
+				ev.Label("req:handler_aborts_with_ErrAbortHandler")
 			}
 			if rapid.IntRange(0, 7).Draw(t, "replaceNoRoute") == 0 {
 				tb.ReplaceNoRoute() // HandleNoRoute again, between requests: the new handler is the no-route handler now
